@@ -134,3 +134,28 @@ Theorem lex_roundtrip_task F ia k :
   vocab_ok F ia (NTask k) = true -> unamb F (ls_term (lt_sentence k)) [] ->
   lex_parse ia F (lex_fmt F (NTask k)) = LOk (NTask k).
 Proof. intros Hok Hv Hun. apply lex_roundtrip; auto. exact I. Qed.
+
+(* ---- the boolean version of [unamb] is sound ---- *)
+Lemma atom_unamb_b_sound F p n k : atom_unamb_b F p n k = true -> atom_unamb F p n k.
+Proof.
+  unfold atom_unamb_b, atom_unamb. intros H. apply andb_true_iff in H as [H1 H2]. split.
+  - destruct (match_prefix (c_prefixes (compile F)) (p ++ n ++ k)) as [q|]; [|discriminate].
+    apply str_eqb_eq in H1. now subst.
+  - intros i Hi. rewrite forallb_forall in H2. specialize (H2 i).
+    assert (Hin : In i (seq 0 (length n))) by (apply in_seq; lia). specialize (H2 Hin).
+    destruct (match_prefix (c_copulas (compile F)) (drop i n ++ k)); [discriminate | reflexivity].
+Qed.
+
+Lemma unamb_b_sound F : forall t k, unamb_b F t k = true -> unamb F t k.
+Proof.
+  induction t as [p n | c ts IHts | l ts rb IHts | c s p IHs IHp] using lterm_ind2; intros k H.
+  - now apply atom_unamb_b_sound.
+  - cbn [unamb unamb_b] in *. induction ts as [|t r IH]; [exact I|].
+    inversion IHts as [|? ? Ht Hr]; subst. apply andb_true_iff in H as [H1 H2]. split; [now apply Ht | now apply IH].
+  - cbn [unamb unamb_b] in *. induction ts as [|t r IH]; [exact I|].
+    inversion IHts as [|? ? Ht Hr]; subst. apply andb_true_iff in H as [H1 H2]. split; [now apply Ht | now apply IH].
+  - cbn [unamb unamb_b] in *. apply andb_true_iff in H as [H1 H2]. split; auto.
+Qed.
+
+Lemma unamb_top_b_sound F v : unamb_top_b F v = true -> unamb_top F v.
+Proof. unfold unamb_top_b. destruct v; cbn [top_term unamb_top]; apply unamb_b_sound. Qed.
